@@ -56,6 +56,7 @@ def run(tier):
     rule_R2(res, prog, cg, c)
     rule_R3(res, prog, cg, c)
     rule_R4(res, prog, cg, c)
+    rule_R5(res, prog)
     return res.finish()
 
 
@@ -427,3 +428,64 @@ def rule_R4(res, prog, cg, c, prop=None, rid="C02.R4", directions=("open", "seal
             res.instance(rid, "%s HMAC input covers seq, type, version, length, data, key" % hname,
                          not missing, finding=f)
     res.floor(rid, 8 if len(directions) == 2 else 4)
+
+
+def rule_R5(res, prog):
+    """CBC padding (RFC 5246 6.2.3.2): every padding byte must equal the padding length.  In the record decoder every
+    path from the read of the padding-length byte to the MAC verification passes the byte-by-byte comparison loop, except
+    when an earlier length check already failed or the active version is SSL 3.0 (whose padding bytes are arbitrary)."""
+    from sa import cfgutil as cu
+    from sa.pp import pp
+    res.rule("C02.R5", "CBC records: all padding bytes are compared with the padding length before the MAC verdict, for every "
+                       "version except SSL 3.0")
+    fn = prog.fn("matrixSslDecodeTls12AndBelow")
+    SSL3 = prog.enums.get("v_ssl_3_0") or 1
+    starts = cu.find_sites(fn, lambda n: n.get("k") == "bin" and n["op"] == "=" and (strip(n["l"]) or {}).get("n") == "padLen"
+                           and (strip(n["r"]) or {}).get("k") in ("un", "idx"))
+    if not starts:
+        raise AnalysisBroken("C02.R5: the read of the padding length byte was not found")
+
+    def is_pad_cmp(x):
+        from sa.ir import walk
+        for n in walk(x):
+            if n.get("k") == "bin" and n["op"] in ("!=", "=="):
+                l, r = strip(n["l"]), strip(n["r"])
+                for a, b in ((l, r), (r, l)):
+                    if a is not None and a.get("k") in ("un", "idx") and b is not None and b.get("k") == "var" and b.get("n") == "padLen":
+                        return True
+        return False
+
+    def is_mac_call(x):
+        from sa.ir import walk
+        for n in walk(x):
+            if n.get("k") == "call" and not n.get("fn"):
+                fp = strip(n.get("fp"))
+                if fp is not None and fp.get("k") == "mem" and fp.get("f") == "verifyMac":
+                    return True
+        return False
+
+    def exempt(b, k):
+        t = b.get("term")
+        if t is None or "c" not in t or len(b["succ"]) != 2:
+            return False
+        for (txt, tr, nd) in cu._cond_atoms(t["c"], k == 0):
+            if txt == "macError" and tr:
+                return True
+            if tr and txt.startswith("(ssl->activeVersion & ") and txt.endswith(")"):
+                try:
+                    kbits = int(txt[len("(ssl->activeVersion & "):-1])
+                except ValueError:
+                    continue
+                if kbits and (kbits & ~SSL3) == 0:
+                    return True
+        return False
+    for (bid, idx, ln, node) in starts:
+        path = cu.escapes(fn, (bid, idx), is_pad_cmp, exempt_edge=exempt, target_expr=is_mac_call)
+        f_ = None
+        if path is not None:
+            f_ = Finding(PROP, "C02.R5", fn.name, "padding bytes not compared on a path to the MAC verification",
+                         "%s: from the read of the padding length (line %s) a path reaches ssl->verifyMac at line %s without the "
+                         "comparison of every padding byte with padLen and without a prior length error or an SSL 3.0 version test "
+                         "(branch points: %s): spliced records with non-uniform padding are accepted" % (
+                             fn.name, ln, path[-1][1], [p[1] for p in path[-6:-1]]), file=fn.relfile, line=ln)
+        res.instance("C02.R5", "%s: padLen read at line %s -> pad-byte comparison -> verifyMac" % (fn.name, ln), path is None, finding=f_)
